@@ -1,8 +1,784 @@
-//! C29 — not built yet.
+//! C29 — yq-locate expressions evaluate to the located YAML node (DESIGN §4 C29).
+//!
+//! Sub-checks
+//! * `locate-eval` (library): G-yaml streams (every feature group on, the loader's open
+//!   C14 shapes avoided exactly as C14's main search avoids them), keys partly replaced by
+//!   a hostile palette (jq keywords, non-ASCII identifiers, `-`/`.`/space/quote/backslash/
+//!   `\(`/`$`/digit-first keys). For sampled byte offsets inside every key token, scalar
+//!   token and alias token of the span table:
+//!   - `yaml::locate_offset_detailed(index, text, o)` must answer and its expression must
+//!     be accepted by `jq::parse_with_mode(.., ParserMode::Yq)`;
+//!   - route `yaml-cursor`: the expression evaluated with
+//!     `eval_generic::eval_with_cursor_using::<YqSemantics>` on `index.root(text)` (the
+//!     root cursor: the documents as a sequence) must give the model value of the node (for
+//!     a key: the value the key names; for an alias: the anchored value);
+//!   - route `slurp-json`: the same parsed expression evaluated with
+//!     `jq::eval::<_, YqSemantics>` on the harness-written JSON text of the *model's*
+//!     documents collected into an array (this is what `succinctly yq -s` does with the
+//!     slurped documents) must give the same model value — this route does not involve the
+//!     YAML loader at all, it decides whether the printed path denotes the node;
+//!   - `at_offset(o)` on the root cursor must give the token's own value (the key string
+//!     for a key, the anchored value for an alias).
+//! * `cli-sample`: the same statement through `succinctly yq-locate --offset N FILE`,
+//!   `succinctly yq -s -o json --from-file EXPRFILE FILE` (the printed expression byte for
+//!   byte: a key may contain NUL, which no argv can carry) and
+//!   `succinctly yq -o json 'at_offset(N)' FILE` (one output per document, each the token's
+//!   own value) on a small sample; spawns are bounded by a counter (cases x 3 + 240) so
+//!   that shrinking a failure cannot run for minutes; a child that cannot be run to
+//!   completion discards the case.
+//!
+//! Not asserted (measured with `VH_C29_MEASURE_RANGE=1`): `LocateResult::byte_range` equals
+//! the token span only for single-line tokens (multi-line plain and block scalars report
+//! their first line), `value_type` is "string" for every plain scalar — the statement
+//! promises neither.
+//!
+//! Values are compared with the model (`c14::json_matches`: ints exact, strings exact,
+//! mapping entries in order).
+use crate::cli;
 use crate::engine::*;
+use crate::gen::json::{to_compact, J, Num, JQ_KEYWORDS};
+use crate::gen::yaml::{self as gy, Seg, YOpts, YRole, YSpan, YStyle, Y};
+use crate::oracle::jsonval;
+use crate::props::c06::std_to_j;
+use crate::props::c14;
+use serde_json::{json, Value};
+use succinctly::jq::eval_generic::{eval_with_cursor_using, to_owned, to_owned_cursor, GenericResult};
+use succinctly::jq::{self, OwnedValue, ParserMode, QueryResult, YqSemantics};
+use succinctly::json::JsonIndex;
+use succinctly::yaml::{locate_offset_detailed, YamlCursor, YamlIndex, YamlValue};
 
-pub const RULE: &str = "not built";
+pub const RULE: &str = "G-yaml streams (1-4 documents, block and flow collections, compact entries, every scalar style incl. literal/folded block scalars and multi-line flow scalars, anchors+aliases, comments, blank lines, LF/CRLF/CR, tabs as separation; the loader's open C14 shapes avoided as in C14) whose mapping keys are partly replaced by a hostile palette (every jq keyword, non-ASCII identifiers, kebab/dotted/space/quote/backslash/`\\(`/`$`/digit-first/empty keys); for every key, scalar and alias token of the span table the first, last and sampled interior byte offsets (all offsets of tokens up to 6 bytes): locate_offset_detailed(o) must answer, its expression must parse in yq mode and evaluate (a) on the YAML root cursor (documents as a sequence, generic evaluator, yq semantics) and (b) on the model's documents written as a JSON array (jq::eval with yq semantics = `yq -s`) to the model value of the node (key: the value it names; alias: the anchored value); at_offset(o) must give the token's own value (key: the key string). Non-trivial: token at depth >= 2 inside its document that is reached through a key needing bracket notation / non-ASCII / keyword, or lies in document >= 1, or is an alias, block scalar, multi-line or flow-context token; distinct by hash(text, offset).";
+
+// ------------------------------------------------------------------ reading results
+
+fn owned_to_j(o: &OwnedValue) -> J {
+    match o {
+        OwnedValue::Null => J::Null,
+        OwnedValue::Bool(b) => J::Bool(*b),
+        OwnedValue::Int(i) => J::int(*i),
+        OwnedValue::Float(f) => J::Num(Num { text: format!("{:e}", f), value: *f, int: None }),
+        OwnedValue::NumberLiteral(_, text) => {
+            let t = text.to_string();
+            match t.parse::<i64>() {
+                Ok(i) => J::Num(Num { text: t, value: i as f64, int: Some(i) }),
+                Err(_) => J::Num(Num { value: o.as_f64().unwrap_or(f64::NAN), text: t, int: None }),
+            }
+        }
+        OwnedValue::String(s) => J::Str(s.clone()),
+        OwnedValue::Array(a) => J::Arr(a.iter().map(owned_to_j).collect()),
+        OwnedValue::Object(m) => J::Obj(m.iter().map(|(k, v)| (k.clone(), owned_to_j(v))).collect()),
+    }
+}
+
+/// One output of the generic evaluator on a YAML cursor, read two ways when it is a
+/// cursor (`to_owned_cursor`: what holders of a cursor are told to use;
+/// `to_owned(&cursor.value())`: what `yq_runner::evaluate_yaml_cursor` does).
+fn yaml_result_to_j(r: GenericResult<YamlValue<'_, Vec<u64>>>) -> Result<Vec<(&'static str, J)>, String> {
+    match r {
+        GenericResult::One(v) => Ok(vec![("to_owned", owned_to_j(&to_owned(&v)))]),
+        GenericResult::OneCursor(c) => Ok(vec![("to_owned_cursor", owned_to_j(&to_owned_cursor(&c))), ("to_owned", owned_to_j(&to_owned(&c.value())))]),
+        GenericResult::Owned(o) => Ok(vec![("owned", owned_to_j(&o))]),
+        GenericResult::Error(e) => Err(format!("error: {}", e)),
+        GenericResult::None => Err("no output".into()),
+        GenericResult::Many(v) => Err(format!("{} outputs", v.len())),
+        GenericResult::ManyCursor(v) => Err(format!("{} outputs", v.len())),
+        GenericResult::ManyOwned(v) => Err(format!("{} outputs", v.len())),
+        _ => Err("unexpected result shape".into()),
+    }
+}
+
+fn query_to_j(r: QueryResult<'_, Vec<u64>>) -> Result<J, String> {
+    match r {
+        QueryResult::One(v) => std_to_j(v),
+        QueryResult::OneCursor(c) => std_to_j(c.value()),
+        QueryResult::Owned(o) => Ok(owned_to_j(&o)),
+        QueryResult::Error(e) => Err(format!("error: {}", e)),
+        QueryResult::None => Err("no output".into()),
+        QueryResult::Many(v) => Err(format!("{} outputs", v.len())),
+        QueryResult::ManyOwned(v) => Err(format!("{} outputs", v.len())),
+        _ => Err("unexpected result shape".into()),
+    }
+}
+
+// ------------------------------------------------------------------ keys
+
+/// The rule `yaml/locate.rs::can_use_dot_notation` documents by its unit test: a letter
+/// or underscore first, then letters, digits, underscores.
+fn dot_eligible(k: &str) -> bool {
+    let mut cs = k.chars();
+    match cs.next() {
+        Some(c) if c.is_alphabetic() || c == '_' => cs.all(|c| c.is_alphanumeric() || c == '_'),
+        _ => false,
+    }
+}
+
+fn is_keyword(k: &str) -> bool {
+    JQ_KEYWORDS.contains(&k)
+}
+
+fn hostile_key(u: &mut Src) -> String {
+    match u.below(14) {
+        0..=4 => JQ_KEYWORDS[u.below(JQ_KEYWORDS.len())].to_string(),
+        5 => format!("é{}", u.below(10)),
+        6 => (*u.pick(&["ключ", "值", "naïve", "über", "ｆｕｌｌ", "_", "__loc__", "_x1", "Ünï_9"])).to_string(),
+        7 => format!("k-{}", u.below(10)),
+        8 => format!("a.b{}", u.below(10)),
+        9 => format!("{}x", u.below(10)),
+        10 => (*u.pick(&["a b", "q\"x", "b\\s", "\\(x)", "$__loc__", "$v", "a'b", "[0]", ".", "..", "a]", "\"]", "\\", "@base64", "?//", "a|b", "x?", "#", ""])).to_string(),
+        11 => (*u.pick(&["at_offset", "at_position", "select", "keys", "length", "first", "input", "env", "line", "document_index", "di", "file_index", "parent", "key", "path", "tag", "anchor", "alias", "style", "kind", "splitDoc", "load"])).to_string(),
+        12 => (*u.pick(&["a\nb", "t\tb", "r\rn", "nul\u{0}", "bel\u{7}", "del\u{7f}", "a\u{85}b", "a\u{2028}b", "\u{feff}k"])).to_string(),
+        _ => (*u.pick(&["and", "or", "not", "then", "else", "end", "as", "if"])).to_string(),
+    }
+}
+
+/// Replace about one key in `den` by a hostile key (unique inside its mapping, never `<<`).
+fn hostile_keys(u: &mut Src, y: &mut Y, den: u32) {
+    match y {
+        Y::Seq(a) => a.iter_mut().for_each(|x| hostile_keys(u, x, den)),
+        Y::Map(m) => {
+            for i in 0..m.len() {
+                if u.below(den as usize) == den as usize - 1 {
+                    let mut k = hostile_key(u);
+                    let mut t = 0;
+                    while k == "<<" || m.iter().enumerate().any(|(j, e)| j != i && e.0 == k) {
+                        k = format!("{}{}", k, t);
+                        t += 1;
+                    }
+                    m[i].0 = k;
+                }
+                hostile_keys(u, &mut m[i].1, den);
+            }
+        }
+        _ => {}
+    }
+}
+
+// ------------------------------------------------------------------ one (stream, offset)
+
+pub struct StreamCx<'a> {
+    pub text: &'a [u8],
+    pub index: &'a YamlIndex<Vec<u64>>,
+    /// the model's documents as one JSON array, compact (harness-written)
+    pub slurp_json: &'a [u8],
+    pub slurp_index: &'a JsonIndex<Vec<u64>>,
+}
+
+pub struct Expect<'a> {
+    pub doc: usize,
+    pub path: &'a [Seg],
+    pub role: &'static str,
+    pub style: String,
+    pub span: (usize, usize),
+    /// value the located expression must produce
+    pub target: &'a Y,
+    /// value at_offset must produce
+    pub own: &'a Y,
+}
+
+fn matches_model(j: &J, y: &Y) -> Result<(), String> {
+    c14::json_matches(j, y, &mut vec![]).map_err(|m| format!("{} at {}: expected {} got {}", m.kind, m.path, m.expected, m.actual))
+}
+
+fn short(y: &Y) -> String {
+    let s = to_compact(&gy::to_json_model(y));
+    if s.len() > 200 {
+        let mut e = 200;
+        while !s.is_char_boundary(e) {
+            e -= 1;
+        }
+        format!("{}...", &s[..e])
+    } else {
+        s
+    }
+}
+
+/// Failure shapes of open findings: recognised narrowly, reported after the rest of the
+/// stream has been checked (the engine excludes and counts them while the finding is open).
+const OPEN_SHAPES: &[&str] = &[
+    // the index keeps its open positions in the dense (non-monotonic) table — in generated
+    // text: an empty document (`---` directly followed by `---` / `...`) whose synthetic null
+    // is recorded at text_len — and the reverse lookup binary-searches that unsorted table
+    "C29/locate/none/open-positions-not-monotonic(empty-document)",
+    "C29/at_offset/no-node/open-positions-not-monotonic(empty-document)",
+];
+
+fn info_of(cx: &StreamCx<'_>, ex: &Expect<'_>, o: usize, extra: Value) -> Value {
+    let text = cx.text;
+    let mut m = json!({
+        "offset": o, "role": ex.role, "style": ex.style, "doc": ex.doc, "path": gy::path_str(ex.path),
+        "token": show_bytes(&text[ex.span.0..ex.span.1.min(ex.span.0 + 80)]), "span": [ex.span.0, ex.span.1],
+        "expected_value": short(ex.target), "yaml": show_bytes(text),
+    });
+    if let (Some(a), Some(b)) = (m.as_object_mut(), extra.as_object()) {
+        for (k, v) in b {
+            a.insert(k.clone(), v.clone());
+        }
+    }
+    m
+}
+
+/// Everything asserted about one offset; a failure in an open shape does not stop the
+/// other half. `Err`: first failure (open-shape failures last).
+fn check_offset(cx: &StreamCx<'_>, ex: &Expect<'_>, o: usize, st: &mut Stats) -> Result<(), Fail> {
+    let a = check_locate(cx, ex, o, st);
+    if let Err(f) = &a {
+        if !OPEN_SHAPES.contains(&f.sig.as_str()) {
+            return a;
+        }
+    }
+    let b = check_at_offset(cx, ex, o, st);
+    if let Err(f) = &b {
+        if !OPEN_SHAPES.contains(&f.sig.as_str()) {
+            return b;
+        }
+    }
+    a.and(b)
+}
+
+fn check_locate(cx: &StreamCx<'_>, ex: &Expect<'_>, o: usize, st: &mut Stats) -> Result<(), Fail> {
+    let text = cx.text;
+    let root: YamlCursor<'_, Vec<u64>> = cx.index.root(text);
+    let role = ex.role;
+    let dense = !cx.index.open_positions().is_compact();
+    let info = |extra: Value| info_of(cx, ex, o, extra);
+
+    // ---- locate
+    let res = match locate_offset_detailed(cx.index, text, o) {
+        Some(x) => x,
+        None if dense => fail!(OPEN_SHAPES[0], info(json!({"open_positions_compact": false}))),
+        None => fail!(format!("C29/locate/none/{}", role), info(json!({}))),
+    };
+    st.evals(1);
+    if std::env::var("VH_C29_MEASURE_RANGE").is_ok() && ex.style != "replay" {
+        let same = res.byte_range == ex.span;
+        st.class(&format!("measure/range{}span/{}/{}/type={}", if same { "==" } else { "!=" }, role, ex.style, res.value_type));
+        if !same {
+            st.sample(&format!("range!=span/{}/{}", role, ex.style), || info(json!({"located_range": [res.byte_range.0, res.byte_range.1]})));
+        }
+    }
+    let expr = match catch(|| jq::parse_with_mode(&res.expression, ParserMode::Yq)) {
+        Ok(Ok(e)) => e,
+        Ok(Err(e)) => fail!(format!("C29/locate-expr/unparseable/{}", role), info(json!({"expression": res.expression, "error": e.to_string()}))),
+        Err((loc, msg)) => fail!(format!("C29/locate-expr/parser-panic/{}", role), info(json!({"expression": res.expression, "panic": msg, "at": panic_sig(&loc)}))),
+    };
+    // (a) on the YAML root cursor
+    match yaml_result_to_j(eval_with_cursor_using::<YqSemantics, _>(&expr, root)) {
+        Ok(readings) => {
+            for (how, got) in readings {
+                st.evals(1);
+                if let Err(why) = matches_model(&got, ex.target) {
+                    fail!(format!("C29/locate-expr/wrong-value/yaml-cursor/{}", role), info(json!({"expression": res.expression, "read_with": how, "actual": to_compact(&got), "mismatch": why, "located_range": [res.byte_range.0, res.byte_range.1], "located_type": res.value_type})));
+                }
+            }
+        }
+        Err(e) => fail!(format!("C29/locate-expr/eval-failed/yaml-cursor/{}", role), info(json!({"expression": res.expression, "failure": e}))),
+    }
+    // (b) on the model's documents collected into a JSON array (`yq -s`)
+    match query_to_j(jq::eval::<Vec<u64>, YqSemantics>(&expr, cx.slurp_index.root(cx.slurp_json))) {
+        Ok(got) => {
+            st.evals(1);
+            if let Err(why) = matches_model(&got, ex.target) {
+                fail!(format!("C29/locate-expr/wrong-value/slurp-json/{}", role), info(json!({"expression": res.expression, "actual": to_compact(&got), "mismatch": why})));
+            }
+        }
+        Err(e) => fail!(format!("C29/locate-expr/eval-failed/slurp-json/{}", role), info(json!({"expression": res.expression, "failure": e}))),
+    }
+    Ok(())
+}
+
+fn check_at_offset(cx: &StreamCx<'_>, ex: &Expect<'_>, o: usize, st: &mut Stats) -> Result<(), Fail> {
+    let text = cx.text;
+    let root: YamlCursor<'_, Vec<u64>> = cx.index.root(text);
+    let role = ex.role;
+    let dense = !cx.index.open_positions().is_compact();
+    let info = |extra: Value| info_of(cx, ex, o, extra);
+    let prog = format!("at_offset({})", o);
+    let expr = match jq::parse_with_mode(&prog, ParserMode::Yq) {
+        Ok(e) => e,
+        Err(e) => fail!("C29/at_offset/unparseable", info(json!({"program": prog, "error": e.to_string()}))),
+    };
+    match yaml_result_to_j(eval_with_cursor_using::<YqSemantics, _>(&expr, root)) {
+        Ok(readings) => {
+            for (how, got) in readings {
+                st.evals(1);
+                if let Err(why) = matches_model(&got, ex.own) {
+                    fail!(format!("C29/at_offset/wrong-value/{}", role), info(json!({"program": prog, "read_with": how, "expected_own": short(ex.own), "actual": to_compact(&got), "mismatch": why})));
+                }
+            }
+        }
+        Err(e) if dense && e == format!("error: no node at offset {}", o) => fail!(OPEN_SHAPES[1], info(json!({"program": prog, "failure": e, "open_positions_compact": false}))),
+        Err(e) => fail!(format!("C29/at_offset/failed/{}", role), info(json!({"program": prog, "failure": e}))),
+    }
+    Ok(())
+}
+
+fn role_of(sp: &YSpan) -> &'static str {
+    match (sp.role, sp.style) {
+        (YRole::Key, _) => "key",
+        (_, YStyle::Alias) => "alias",
+        (_, YStyle::Literal) | (_, YStyle::Folded) => "block-scalar",
+        _ => "scalar",
+    }
+}
+
+fn token_offsets(u: &mut Src, sp: &YSpan) -> Vec<usize> {
+    let n = sp.end - sp.start;
+    if n <= 6 {
+        return (sp.start..sp.end).collect();
+    }
+    let mut v = vec![sp.start, sp.start + 1, sp.end - 1];
+    for _ in 0..2 {
+        v.push(u.range(sp.start, sp.end - 1));
+    }
+    v.sort();
+    v.dedup();
+    v
+}
+
+fn slurp_json_of(stream: &[Y]) -> Vec<u8> {
+    to_compact(&J::Arr(stream.iter().map(gy::to_json_model).collect())).into_bytes()
+}
+
+fn hostile_on(path: &[Seg]) -> (bool, bool, bool) {
+    let mut bracket = false;
+    let mut non_ascii = false;
+    let mut kw = false;
+    for s in path {
+        if let Seg::Key(k) = s {
+            bracket |= !dot_eligible(k);
+            non_ascii |= !k.is_ascii();
+            kw |= is_keyword(k);
+        }
+    }
+    (bracket, non_ascii, kw)
+}
+
+fn check_stream(stream: &[Y], r: &gy::RenderedYaml, u: &mut Src, st: &mut Stats, max_tokens: usize) -> Result<(), Fail> {
+    let text = &r.text[..];
+    let index = match YamlIndex::build(text) {
+        Ok(i) => i,
+        Err(e) => fail!("C29/build-err", {"error": e.to_string(), "yaml": show_bytes(text)}),
+    };
+    let sj = slurp_json_of(stream);
+    let sidx = JsonIndex::build(&sj);
+    let cx = StreamCx { text, index: &index, slurp_json: &sj, slurp_index: &sidx };
+    let qualifying: Vec<usize> = (0..r.spans.len()).filter(|&i| r.spans[i].end > r.spans[i].start).collect();
+    st.class_if(qualifying.len() < r.spans.len(), "stream-has-empty-node(no-offset)");
+    let picks: Vec<usize> = if qualifying.len() <= max_tokens {
+        qualifying
+    } else {
+        let mut v: Vec<usize> = (0..max_tokens).map(|_| qualifying[u.below(qualifying.len())]).collect();
+        v.sort();
+        v.dedup();
+        v
+    };
+    st.class_if(!index.open_positions().is_compact(), "stream-open-positions-not-monotonic");
+    let mut known: Option<Fail> = None;
+    for si in picks {
+        let sp = &r.spans[si];
+        let role = role_of(sp);
+        let target = match gy::value_at(&stream[sp.doc], &sp.path) {
+            Some(v) => v,
+            None => fail!("harness/C29/span-path-not-in-model", {"path": gy::path_str(&sp.path)}),
+        };
+        if sp.role == YRole::Value && *target != sp.value {
+            fail!("harness/C29/span-value-differs-from-model", {"path": gy::path_str(&sp.path)});
+        }
+        let ex = Expect { doc: sp.doc, path: &sp.path, role, style: format!("{:?}", sp.style), span: (sp.start, sp.end), target, own: &sp.value };
+        let (bracket, non_ascii, kw) = hostile_on(&sp.path);
+        let depth = sp.path.len();
+        let special = bracket || non_ascii || kw || sp.doc >= 1 || role == "alias" || role == "block-scalar" || sp.multiline || sp.in_flow;
+        for o in token_offsets(u, sp) {
+            if depth >= 2 && special {
+                st.nontrivial(mix64(hash_bytes(text) ^ (o as u64).rotate_left(40)));
+                st.class("offset-nontrivial");
+            }
+            st.class(&format!("offset-in-{}", role));
+            st.class_if(o == sp.start, "offset-first-byte");
+            st.class_if(o + 1 == sp.end, "offset-last-byte");
+            st.class_if(o > sp.start && o + 1 < sp.end, "offset-interior");
+            st.class_if(kw, "offset-keyword-on-path");
+            st.class_if(non_ascii, "offset-non-ascii-key-on-path");
+            st.class_if(bracket, "offset-bracket-key-on-path");
+            st.class_if(sp.doc >= 1, "offset-in-document>=1");
+            st.class_if(sp.in_flow, "offset-in-flow-context");
+            st.class_if(sp.multiline, "offset-in-multiline-token");
+            st.class_if(sp.anchor.is_some(), "offset-in-anchored-token");
+            st.class_if(matches!(sp.style, YStyle::Single | YStyle::Double), "offset-in-quoted-token");
+            st.class_if(role == "alias" && sp.value.is_container(), "offset-in-alias-to-collection");
+            st.class_if(depth == 0, "offset-in-root-scalar");
+            st.class_if(depth >= 12, "offset-depth>=12");
+            if let Err(f) = check_offset(&cx, &ex, o, st) {
+                if !OPEN_SHAPES.contains(&f.sig.as_str()) {
+                    return Err(f);
+                }
+                if known.is_none() {
+                    known = Some(f);
+                }
+            }
+        }
+    }
+    match known {
+        Some(f) => Err(f),
+        None => Ok(()),
+    }
+}
+
+// ------------------------------------------------------------------ generation
+
+fn opts_for(cx: &Ctx) -> YOpts {
+    let mut o = YOpts::full();
+    // the loader's open findings are C14's business: excluded by construction exactly as
+    // C14's main search excludes them
+    o.avoid = c14::opts_for(cx).avoid;
+    // depth of the occasional single-child spine (c14::gen_model keeps ordinary trees at
+    // depth <= 8); materialisation is documented to panic past 256 levels
+    o.max_depth = if cx.tier == Tier::Quick { 30 } else { 80 };
+    o
+}
+
+fn gen_case(u: &mut Src, o: &YOpts) -> (Vec<Y>, gy::RenderedYaml) {
+    let mut stream = c14::gen_model(u, o);
+    let den = *u.pick(&[3u32, 6, 6, 1000]);
+    for d in stream.iter_mut() {
+        hostile_keys(u, d, den);
+    }
+    let r = gy::render(&stream, u, o);
+    (stream, r)
+}
+
+fn classify_stream(stream: &[Y], r: &gy::RenderedYaml, st: &mut Stats) {
+    let s = &r.stats;
+    st.class(&format!("break-{}", s.line_break));
+    st.class_if(stream.len() > 1, "multi-document");
+    for (name, n) in s.iter() {
+        if ["block_maps", "block_seqs", "flow_maps", "flow_seqs", "compact_seq_entries", "seq_at_parent_indent", "literal", "folded", "single", "double", "plain", "keys_single", "keys_double", "multiline_plain", "multiline_quoted", "multiline_flow", "anchors", "aliases", "trailing_comments", "comment_lines", "tabs_separation", "indented_roots", "no_final_newline", "doc_start_markers"].contains(&name) {
+            st.class_if(n > 0, name);
+        }
+    }
+    st.size(r.text.len());
+    let cls = if s.aliases > 0 { "alias" } else if s.literal + s.folded > 0 { "block-scalar" } else if s.flow_maps + s.flow_seqs > 0 { "flow" } else { "block" };
+    st.sample(cls, || json!({"yaml": show_bytes(&r.text[..r.text.len().min(400)]), "docs": stream.len(), "tokens": r.spans.len()}));
+}
+
+fn describe(stream: &[Y], r: &gy::RenderedYaml) -> Value {
+    json!({"yaml_hex": hex(&r.text), "yaml": String::from_utf8_lossy(&r.text), "model": stream.iter().map(gy::to_typed_json).collect::<Vec<_>>()})
+}
+
+// ------------------------------------------------------------------ replays
+
+fn path_from_json(v: &Value) -> Option<Vec<Seg>> {
+    v.as_array()?
+        .iter()
+        .map(|s| match (s.get("key").and_then(|k| k.as_str()), s.get("idx").and_then(|i| i.as_u64())) {
+            (Some(k), _) => Some(Seg::Key(k.to_string())),
+            (_, Some(i)) => Some(Seg::Idx(i as usize)),
+            _ => None,
+        })
+        .collect()
+}
+
+/// `{"input": {"yaml"| "yaml_hex": .., "model": [typed json per document], "offset": n,
+/// "doc": d, "path": [{"key": k} | {"idx": i}, ..], "role": "key"|"scalar"|"alias"|"block-scalar"}}`:
+/// the token at `offset` is the key that names / the node at `path` of document `d`.
+fn replay_input(v: &Value) -> Option<Fail> {
+    let inp = &v["input"];
+    let bad = |why: &str| Some(Fail::new("C29/replay/malformed", json!({"why": why})));
+    let text: Vec<u8> = match (inp["yaml"].as_str(), inp["yaml_hex"].as_str()) {
+        (_, Some(h)) => unhex(h),
+        (Some(s), None) => s.as_bytes().to_vec(),
+        _ => return bad("no yaml"),
+    };
+    let model: Vec<Y> = match inp["model"].as_array().and_then(|a| a.iter().map(gy::from_typed_json).collect::<Option<Vec<Y>>>()) {
+        Some(m) => m,
+        None => return bad("no model"),
+    };
+    let o = match inp["offset"].as_u64() {
+        Some(o) => o as usize,
+        None => return bad("no offset"),
+    };
+    let doc = inp["doc"].as_u64().unwrap_or(0) as usize;
+    let path = match path_from_json(&inp["path"]) {
+        Some(p) => p,
+        None => return bad("no path"),
+    };
+    let role: &'static str = match inp["role"].as_str() {
+        Some("key") => "key",
+        Some("alias") => "alias",
+        Some("block-scalar") => "block-scalar",
+        _ => "scalar",
+    };
+    let target = match model.get(doc).and_then(|d| gy::value_at(d, &path)) {
+        Some(t) => t.clone(),
+        None => return bad("path not in model"),
+    };
+    let own = if role == "key" {
+        match path.last() {
+            Some(Seg::Key(k)) => Y::Str(k.clone()),
+            _ => return bad("key role needs a key path"),
+        }
+    } else {
+        target.clone()
+    };
+    let index = match YamlIndex::build(&text) {
+        Ok(i) => i,
+        Err(e) => return Some(Fail::new("C29/build-err", json!({"error": e.to_string()}))),
+    };
+    let sj = slurp_json_of(&model);
+    let sidx = JsonIndex::build(&sj);
+    let cx = StreamCx { text: &text, index: &index, slurp_json: &sj, slurp_index: &sidx };
+    let ex = Expect { doc, path: &path, role, style: "replay".into(), span: (o, (o + 1).min(text.len())), target: &target, own: &own };
+    let mut st = Stats::default();
+    // "check": "locate" | "at_offset" restricts the replay to one half (default: both)
+    let which = inp["check"].as_str().unwrap_or("both").to_string();
+    let run = || match which.as_str() {
+        "locate" => check_locate(&cx, &ex, o, &mut st),
+        "at_offset" => check_at_offset(&cx, &ex, o, &mut st),
+        _ => check_offset(&cx, &ex, o, &mut st),
+    };
+    match catch(run) {
+        Ok(Ok(())) => None,
+        Ok(Err(f)) => Some(f),
+        Err((loc, msg)) => Some(Fail::new(format!("panic@{}", panic_sig(&loc)), json!({"panic": msg, "location": loc}))),
+    }
+}
+
+// ------------------------------------------------------------------ CLI sample
+
+/// Spawns left for `cli-sample` (cases x 3 plus an allowance for shrinking a failure):
+/// work is bounded by counts, never by time — a shrink run made of process spawns would
+/// otherwise take many minutes on a loaded machine.
+static SPAWNS_LEFT: std::sync::atomic::AtomicI64 = std::sync::atomic::AtomicI64::new(0);
+
+enum CliErr {
+    /// the child could not be run to completion (watchdog, spawn failure, spawn budget):
+    /// inconclusive, the case is discarded
+    Inconclusive,
+    Failed(String),
+}
+
+fn spawn(args: &[&str]) -> Result<cli::CliOut, CliErr> {
+    if SPAWNS_LEFT.fetch_sub(1, std::sync::atomic::Ordering::SeqCst) <= 0 {
+        return Err(CliErr::Inconclusive);
+    }
+    let out = cli::run(args, None);
+    if out.timed_out {
+        return Err(CliErr::Inconclusive);
+    }
+    Ok(out)
+}
+
+fn cli_json(args: &[&str]) -> Result<Vec<J>, CliErr> {
+    let out = spawn(args)?;
+    if !out.ok() {
+        return Err(CliErr::Failed(format!("exit {:?} signal {:?}: {}", out.code, out.signal, out.stderr_str().lines().next().unwrap_or(""))));
+    }
+    jsonval::parse_stream(&out.stdout).map_err(|e| CliErr::Failed(format!("stdout is not a JSON stream: {:?}: {}", e, show_bytes(&out.stdout[..out.stdout.len().min(200)]))))
+}
+
+fn check_cli(stream: &[Y], r: &gy::RenderedYaml, u: &mut Src, st: &mut Stats, per_stream: usize) -> Result<(), Fail> {
+    let text = &r.text[..];
+    let qualifying: Vec<usize> = (0..r.spans.len()).filter(|&i| r.spans[i].end > r.spans[i].start).collect();
+    if qualifying.is_empty() {
+        st.class("cli-discarded/stream-without-token");
+        st.discard();
+        return Ok(());
+    }
+    // (shape predicate of the open finding, read from the library's index of the same text)
+    let dense = YamlIndex::build(text).map_or(false, |i| !i.open_positions().is_compact());
+    let file = cli::write_tmp("c29.yaml", text);
+    let fname = file.to_string_lossy().to_string();
+    let res = (|| -> Result<(), Fail> {
+        for _ in 0..per_stream {
+            let sp = &r.spans[qualifying[u.below(qualifying.len())]];
+            let o = u.range(sp.start, sp.end - 1);
+            let role = role_of(sp);
+            let target = gy::value_at(&stream[sp.doc], &sp.path).expect("span path in model");
+            let info = |extra: Value| {
+                let mut m = json!({"offset": o, "role": role, "doc": sp.doc, "path": gy::path_str(&sp.path), "expected_value": short(target), "yaml": show_bytes(text)});
+                if let (Some(a), Some(b)) = (m.as_object_mut(), extra.as_object()) {
+                    for (k, v) in b {
+                        a.insert(k.clone(), v.clone());
+                    }
+                }
+                m
+            };
+            st.class(&format!("cli-offset-in-{}", role));
+            let os = o.to_string();
+            let loc = match spawn(&["yq-locate", "--offset", &os, &fname]) {
+                Ok(l) => l,
+                Err(_) => {
+                    st.class("cli-discarded/child-inconclusive");
+                    st.discard();
+                    return Ok(());
+                }
+            };
+            if !loc.ok() && dense && loc.stderr_str().starts_with(&format!("Error: Could not locate position at offset {}", o)) {
+                fail!(OPEN_SHAPES[0], info(json!({"exit": loc.code, "stderr": loc.stderr_str().lines().next().unwrap_or("").to_string(), "open_positions_compact": false, "route": "cli"})));
+            }
+            if !loc.ok() {
+                fail!(format!("C29/cli/yq-locate-failed/{}", role), info(json!({"exit": loc.code, "stderr": loc.stderr_str().lines().next().unwrap_or("").to_string()})));
+            }
+            // the expression exactly as printed goes to `--from-file` (a key may contain any
+            // character, NUL included, which no argv can carry)
+            let so = loc.stdout_str();
+            let expr = so.strip_suffix('\n').unwrap_or(&so).to_string();
+            let efile = cli::write_tmp("c29.expr", &loc.stdout);
+            let ename = efile.to_string_lossy().to_string();
+            st.evals(1);
+            let got = cli_json(&["yq", "-s", "-o", "json", "--from-file", &ename, &fname]);
+            let _ = std::fs::remove_file(&efile);
+            match got {
+                Ok(v) if v.len() == 1 => {
+                    if let Err(why) = matches_model(&v[0], target) {
+                        fail!(format!("C29/cli/locate-expr/wrong-value/{}", role), info(json!({"expression": expr, "actual": to_compact(&v[0]), "mismatch": why})));
+                    }
+                }
+                Ok(v) => fail!(format!("C29/cli/locate-expr/output-count/{}", role), info(json!({"expression": expr, "outputs": v.len()}))),
+                Err(CliErr::Inconclusive) => {
+                    st.class("cli-discarded/child-inconclusive");
+                    st.discard();
+                    return Ok(());
+                }
+                Err(CliErr::Failed(e)) => fail!(format!("C29/cli/locate-expr/failed/{}", role), info(json!({"expression": expr, "failure": e}))),
+            }
+            st.evals(1);
+            // `yq` evaluates the filter once per document: every document's cursor shares the
+            // stream's index, so each evaluation of at_offset(o) answers the same node
+            let prog = format!("at_offset({})", o);
+            match cli_json(&["yq", "-o", "json", &prog, &fname]) {
+                Ok(v) if v.len() == stream.len() => {
+                    for got in &v {
+                        if let Err(why) = matches_model(got, &sp.value) {
+                            fail!(format!("C29/cli/at_offset/wrong-value/{}", role), info(json!({"program": prog, "expected_own": short(&sp.value), "actual": to_compact(got), "mismatch": why})));
+                        }
+                    }
+                }
+                Ok(v) => fail!(format!("C29/cli/at_offset/output-count/{}", role), info(json!({"program": prog, "outputs": v.len(), "documents": stream.len()}))),
+                Err(CliErr::Inconclusive) => {
+                    st.class("cli-discarded/child-inconclusive");
+                    st.discard();
+                    return Ok(());
+                }
+                Err(CliErr::Failed(e)) if dense && e.contains(&format!("no node at offset {}", o)) => fail!(OPEN_SHAPES[1], info(json!({"program": prog, "failure": e, "open_positions_compact": false, "route": "cli"}))),
+                Err(CliErr::Failed(e)) => fail!(format!("C29/cli/at_offset/failed/{}", role), info(json!({"program": prog, "failure": e}))),
+            }
+            st.evals(1);
+        }
+        Ok(())
+    })();
+    let _ = std::fs::remove_file(&file);
+    res
+}
+
+/// Development aid: `VH_C29_PROBE=<file> vh run C29 quick` prints the index's open
+/// positions, IB bits and what locate / at_offset say for every offset of the file.
+fn probe(path: &str) {
+    let text = std::fs::read(path).expect("probe file");
+    println!("text: {}", show_bytes(&text));
+    let index = match YamlIndex::build(&text) {
+        Ok(i) => i,
+        Err(e) => {
+            println!("build error: {}", e);
+            return;
+        }
+    };
+    let op = index.open_positions();
+    println!("open_positions (compact={}): {:?}", op.is_compact(), (0..op.len()).map(|i| op.get(i)).collect::<Vec<_>>());
+    println!("ib: {:?}", (0..text.len() + 1).filter(|&i| index.ib_rank1(i + 1) > index.ib_rank1(i)).collect::<Vec<_>>());
+    println!("json: {}", index.root(&text).to_json_document());
+    for o in 0..text.len() {
+        let l = locate_offset_detailed(&index, &text, o);
+        println!("  {:3} {:?}: {}", o, text[o] as char, l.map(|r| format!("{} {:?} {}", r.expression, r.byte_range, r.value_type)).unwrap_or_else(|| "None".into()));
+    }
+}
+
+// ------------------------------------------------------------------ run
 
 pub fn run(cx: &mut Ctx) {
-    cx.infra("check not built");
+    if let Ok(p) = std::env::var("VH_C29_PROBE") {
+        for f in p.split(',') {
+            probe(f);
+        }
+        return;
+    }
+    cx.assume("expected values come from the G-yaml model and the renderer's span table (the text is never parsed by harness code); G-yaml only emits presentations whose YAML 1.2.2 reading is unambiguous (gen/yaml.rs lists every exclusion)");
+    cx.assume("the loader's open C14 findings are excluded by construction exactly as in C14's main search; a stream the loader reads differently from the model is C14's failure, not C29's");
+    cx.assume("results are read back through eval_generic::to_owned / to_owned_cursor (YAML) and StandardJson navigation (JSON, checked by C06); the slurp-json route evaluates on a JSON array written by the harness from the model");
+    cx.assume("a qualifying offset is any byte of the token's span as recorded by G-yaml: quotes, block-scalar header/indentation/line breaks between the first and last content byte included; anchor prefixes, zero-length (empty) nodes and containers are not tokens");
+    for (name, v) in cx.replays.clone() {
+        if v["kind"] == "input" {
+            let r = replay_input(&v);
+            cx.replay_outcome(&name, r);
+        }
+    }
+    let o = opts_for(cx);
+    let thorough = cx.tier == Tier::Thorough;
+    let max_tokens = if thorough { 40 } else { 24 };
+    cx.check(
+        "locate-eval",
+        RULE,
+        Budget { quick: 30_000, thorough: 600_000, max_len: 3000 },
+        |u, st| {
+            let (stream, r) = gen_case(u, &o);
+            classify_stream(&stream, &r, st);
+            st.describe(|| describe(&stream, &r));
+            match check_stream(&stream, &r, u, st, max_tokens) {
+                Ok(()) => Ok(()),
+                Err(f) => {
+                    // a stream the loader itself reads differently from the model is C14's
+                    // failure; it says nothing about locate
+                    let mut s2 = Stats::default();
+                    if !f.sig.starts_with("harness/") && c14::check_stream(&stream, &r.text, &mut s2).is_err() {
+                        st.class("discarded-loader-disagrees-with-model");
+                        st.discard();
+                        return Ok(());
+                    }
+                    Err(f)
+                }
+            }
+        },
+    );
+    for cl in [
+        "offset-nontrivial", "offset-in-key", "offset-in-scalar", "offset-in-alias", "offset-in-block-scalar", "offset-first-byte", "offset-last-byte",
+        "offset-interior", "offset-keyword-on-path", "offset-non-ascii-key-on-path", "offset-bracket-key-on-path", "offset-in-document>=1",
+        "offset-in-flow-context", "offset-in-multiline-token", "offset-in-anchored-token", "offset-in-quoted-token", "offset-in-alias-to-collection",
+        "offset-in-root-scalar", "offset-depth>=12", "break-CRLF", "break-CR", "multi-document", "block_maps", "block_seqs", "flow_maps", "flow_seqs", "literal", "folded",
+        "keys_single", "keys_double", "compact_seq_entries", "seq_at_parent_indent",
+    ] {
+        cx.require_class("locate-eval", cl, 20);
+    }
+
+    if cli::cli_available() {
+        let per_stream = 1;
+        let budget = Budget { quick: 100, thorough: 3_000, max_len: 3000 };
+        SPAWNS_LEFT.store(cx.cases(&budget) as i64 * 3 + 240, std::sync::atomic::Ordering::SeqCst);
+        cx.check(
+            "cli-sample",
+            "the same statement through the binary: `succinctly yq-locate --offset N FILE` prints the expression; `succinctly yq -s -o json EXPR FILE` must print the model value; `succinctly yq -o json 'at_offset(N)' FILE` must print the token's own value once per document; 1 random token offset per generated stream",
+            budget,
+            |u, st| {
+                let (stream, r) = gen_case(u, &o);
+                st.describe(|| describe(&stream, &r));
+                st.class_if(stream.len() > 1, "multi-document");
+                match check_cli(&stream, &r, u, st, per_stream) {
+                    Ok(()) => Ok(()),
+                    Err(f) => {
+                        let mut s2 = Stats::default();
+                        if c14::check_stream(&stream, &r.text, &mut s2).is_err() {
+                            st.class("discarded-loader-disagrees-with-model");
+                            st.discard();
+                            return Ok(());
+                        }
+                        Err(f)
+                    }
+                }
+            },
+        );
+        cx.require_class("cli-sample", "cli-offset-in-key", 10);
+        cx.require_class("cli-sample", "cli-offset-in-scalar", 10);
+        cli::cleanup();
+    } else {
+        cx.note("cli-sample skipped: no CLI binary (VH_CLI)");
+    }
 }
